@@ -37,6 +37,29 @@ struct SchedState {
 struct Sched {
     st: Mutex<SchedState>,
     cv: Condvar,
+    /// kernel thread ids of the workers (0 = not started yet)
+    tids: Mutex<Vec<i32>>,
+}
+
+/// true if the kernel shows the thread asleep (state S: waiting on a futex, i.e. inside a lock) in every one of a few
+/// samples.  A worker that is merely starved of CPU on a loaded machine is runnable (R) or in disk wait (D), and
+/// must not be mistaken for one that is blocked in a lock.
+fn thread_asleep(tid: i32) -> bool {
+    if tid == 0 {
+        return false;
+    }
+    for _ in 0..6 {
+        let st = fs::read_to_string(format!("/proc/self/task/{tid}/stat")).unwrap_or_default();
+        // "pid (comm) S ..." - the state follows the last ')'
+        let state = st.rfind(')').and_then(|i| st[i + 1..].split_whitespace().next().map(|x| x.to_string()));
+        match state.as_deref() {
+            Some("S") => {}
+            Some(_) => return false,
+            None => return true, // the thread is gone
+        }
+        std::thread::sleep(Duration::from_millis(10));
+    }
+    true
 }
 
 impl Sched {
@@ -61,27 +84,53 @@ impl Sched {
         g.grant[t] = true;
         g.status[t] = Status::Running;
         self.cv.notify_all();
-        let deadline = Instant::now() + timeout;
+        let mut deadline = Instant::now() + timeout;
+        let hard = Instant::now() + Duration::from_secs(120);
         while g.status[t] == Status::Running {
             let now = Instant::now();
             if now >= deadline {
-                return false;
+                // blocked in a lock (asleep) or only slow (runnable / in disk wait on a loaded machine)?
+                let tid = self.tids.lock().unwrap()[t];
+                drop(g);
+                let asleep = thread_asleep(tid);
+                g = self.st.lock().unwrap();
+                if g.status[t] != Status::Running {
+                    break;
+                }
+                if asleep || now >= hard {
+                    return false;
+                }
+                deadline = Instant::now() + timeout;
+                continue;
             }
             let (ng, _) = self.cv.wait_timeout(g, deadline - now).unwrap();
             g = ng;
         }
         true
     }
+    fn all_running_asleep(&self) -> bool {
+        let st = self.status();
+        let tids = self.tids.lock().unwrap().clone();
+        st.iter().enumerate().all(|(t, s)| *s != Status::Running || thread_asleep(tids[t]))
+    }
     fn status(&self) -> Vec<Status> {
         self.st.lock().unwrap().status.clone()
     }
     fn wait_parked(&self, timeout: Duration) -> bool {
         let mut g = self.st.lock().unwrap();
-        let deadline = Instant::now() + timeout;
+        let mut deadline = Instant::now() + timeout;
+        let hard = Instant::now() + Duration::from_secs(120);
         while g.status.iter().any(|s| *s == Status::Running) {
             let now = Instant::now();
             if now >= deadline {
-                return false;
+                drop(g);
+                let asleep = self.all_running_asleep();
+                g = self.st.lock().unwrap();
+                if asleep || now >= hard {
+                    return false;
+                }
+                deadline = Instant::now() + timeout;
+                continue;
             }
             let (ng, _) = self.cv.wait_timeout(g, deadline - now).unwrap();
             g = ng;
@@ -298,6 +347,7 @@ pub fn run_schedule<K: HKey>(
     let sched = Arc::new(Sched {
         st: Mutex::new(SchedState { status: vec![Status::Running; n], grant: vec![false; n], abort: false }),
         cv: Condvar::new(),
+        tids: Mutex::new(vec![0; n]),
     });
     let results: Arc<Mutex<Vec<Vec<Value>>>> = Arc::new(Mutex::new(vec![vec![]; n]));
     let mut handles = vec![];
@@ -310,6 +360,7 @@ pub fn run_schedule<K: HKey>(
         let results = results.clone();
         let qdir = qdir.clone();
         handles.push(std::thread::spawn(move || {
+            sched.tids.lock().unwrap()[t] = unsafe { libc::syscall(libc::SYS_gettid) } as i32;
             verif::install(Some(Arc::new(Handle { sched: sched.clone(), t })));
             // a user-held IndexReadGuard, kept alive across the following calls of this thread
             let mut held = None;
@@ -392,7 +443,7 @@ pub fn run_schedule<K: HKey>(
             // every unfinished worker is parked before a lock that is held, or stuck inside one
             std::thread::sleep(Duration::from_millis(if stuck.is_empty() { 0 } else { 3000 }));
             let status2 = sched.status();
-            if status2 == status {
+            if status2 == status && sched.all_running_asleep() {
                 blocked = true;
                 let st: Vec<String> = status.iter().map(|s| format!("{s:?}")).collect();
                 events.push(json!({"ev": "blocked", "status": st, "mask": {"i": mask.intents, "s": mask.state, "w": mask.wal}}));
